@@ -127,6 +127,10 @@ class JSONPointer:
         return index
 
     def _getitem(self, obj: Any, key: Any) -> Any:  # noqa: PLR0912
+        if isinstance(obj, str):
+            # Strings are JSON primitives, not arrays of characters.
+            raise JSONPointerTypeError(f"{key}: can't index into a string")
+
         try:
             return getitem(obj, key)
         except KeyError as err:
@@ -154,8 +158,10 @@ class JSONPointer:
                     raise JSONPointerIndexError("index out of range") from None
                 # Handle non-standard index pointer.
                 if isinstance(key, str) and key.startswith("#"):
-                    _index = int(key[1:])
-                    if _index >= len(obj):
+                    _index = self._index(key[1:])
+                    if not isinstance(_index, int):
+                        raise JSONPointerTypeError(f"{key}: {err}") from err
+                    if _index >= len(obj) or _index < -len(obj):
                         raise JSONPointerIndexError(
                             f"index out of range: {_index}"
                         ) from err
